@@ -55,7 +55,7 @@ Proof. exact props_decode_post. Qed.
 Example C27_nonvacuous :
   (exists pk, mochi_decode_body 5 (mkfh 7 SUBSCRIBE 1 false false) [0; 1; 0; 0; 1; 97; 1] = Ok pk /\
               map s_filter (pk_filters pk) = [[97]] /\ map s_qos (pk_filters pk) = [1]) /\
-  mochi_decode_body 5 (mkfh 6 SUBSCRIBE 1 false false) [0; 1; 0; 0; 1; 97] = Err EQos.
+  mochi_decode_body 5 (mkfh 6 SUBSCRIBE 1 false false) [0; 1; 0; 0; 1; 97] = Err EOffsetByteOutOfRange.
 Proof. split; [eexists; split; [vm_compute; reflexivity|split; reflexivity]|vm_compute; reflexivity]. Qed.
 
 (* the repaired defect: the pre-fix decoder panicked on that input *)
